@@ -1,11 +1,14 @@
 (* Extraction of the handshake models (state machines, honest pair runs, version gate, byte-level parsers)
    for the correspondence runner ocaml/hs.  Directives used: those of ExtrOcamlBasic only. *)
 From Coq Require Import Extraction ExtrOcamlBasic List NArith.
-From GmsmVerif Require Import Lib.Outcome HS.HSTerms HS.HSModel HS.HSParsers.
+From GmsmVerif Require Import Lib.Outcome HS.HSTerms HS.HSModel HS.HSParsers HS.HSMsgParsers.
 Extraction Language OCaml.
 Extraction "hs_model.ml"
   client_run server_run client_step server_step client_init server_init pair_run pair_loop pair_run_t feed to_input version_gate
   skx_payload encryptTicket session_state finished_sum masterFromPreMasterSecret
   default_gm_suite_ids default_tls_suite_ids gmCipherSuites cipherSuites find_suite
   ecc_ckx_prefix ecc_skx_prefix certificateRequestMsgGM_unmarshal read_handshakes readHandshake_raw
-  term_eqb verify decrypt tlist rrun rfeed client_wants_ccs server_wants_ccs match_hostnames.
+  term_eqb verify decrypt tlist rrun rfeed client_wants_ccs server_wants_ccs match_hostnames
+  clientHello_unmarshal serverHello_unmarshal certificate_unmarshal serverKeyExchange_unmarshal clientKeyExchange_unmarshal
+  finished_unmarshal certificateVerify_unmarshal newSessionTicket_unmarshal certificateRequest_unmarshal
+  certificateStatus_unmarshal nextProto_unmarshal serverHelloDone_unmarshal.
